@@ -1488,3 +1488,28 @@ func lemmaLenEventTopologyChange(c *eventCodec, msg *TopologyChangeEvent, versio
 //@ func lemmaLenEventTopologyChange
 //@   prop C03
 //@   ensures agree: result
+
+// ---- C01, token view: RESULT Rows metadata without column specifications round-trips field by field ----------------
+// (paging state, new metadata id and continuous page number may all be present together: the decoder has to read them
+// in the order the encoder writes them)
+func lemmaTokRoundTripRowsMetadata(metadata *RowsMetadata, version primitive.ProtocolVersion) (*RowsMetadata, error, bool) {
+	buf := &bytes.Buffer{}
+	if err := encodeRowsMetadata(metadata, buf, version); err != nil {
+		return nil, err, false
+	}
+	decoded, err := decodeRowsMetadata(buf, version)
+	return decoded, err, true
+}
+
+//@ func lemmaTokRoundTripRowsMetadata
+//@   prop C01
+//@   tokens
+//@   expand message.encodeRowsMetadata, message.decodeRowsMetadata
+//@   requires nocols: len(metadata.Columns) == 0 && metadata.ColumnCount >= 0
+//@   requires fits: len(metadata.PagingState) <= 2147483647 && len(metadata.NewResultMetadataId) <= 65535
+//@   ensures count: result1 == nil ==> result0 != nil && result0.ColumnCount == metadata.ColumnCount
+//@   ensures pagingstate: result1 == nil ==> isnil(result0.PagingState) == isnil(metadata.PagingState) && len(result0.PagingState) == len(metadata.PagingState) && same(win(result0.PagingState), win(metadata.PagingState))
+//@   ensures newid: result1 == nil ==> len(result0.NewResultMetadataId) == len(metadata.NewResultMetadataId) && same(win(result0.NewResultMetadataId), win(metadata.NewResultMetadataId))
+//@   ensures pageno: result1 == nil && metadata.ContinuousPageNumber > 0 ==> result0.ContinuousPageNumber == metadata.ContinuousPageNumber && result0.LastContinuousPage == metadata.LastContinuousPage
+//@   ensures accepted: result2 ==> result1 == nil
+//@   cover roundtrip: result2 && result1 == nil
